@@ -33,7 +33,7 @@ def table(name, shape):
 def run(chk):
     G = GenEnv(chk.repo)
     chk.files = G.w.files
-    thorough = chk.tier == "thorough"
+    thorough = chk.full
     chk.rule("C15.R1", "observation loader: tables stored unchanged; one index vector gathers input, value and observed "
                        "parameters along axis 0", floor=4)
     chk.rule("C15.R2", "parameter loader: (n,1) and (n,) tables accepted, other shapes rejected, table has priority, per-key ranges", floor=5)
